@@ -114,6 +114,7 @@ def run(ctx):
     check_cascade(ctx, gfns)
     check_generation(ctx, gfns)
     check_uniqueness(ctx)
+    check_argument_scan(ctx, gfns)
 
 
 def agg_payload_locals(prov, f, operand, variant):
@@ -307,6 +308,30 @@ def check_cascade(ctx, gfns):
                    "a successor already removed by an earlier cascade is removed again and the `expect` on the result panics",
                    site="%s in %s" % (t.span, f.id))
     ctx.ob("R06.5", "count", n >= 1, "recursive node-removal call sites: %d" % n, nontrivial=False)
+    # the cascade visits every collected successor: the loop is left only when its iterator is exhausted
+    for f in gfns:
+        rec = [t for t in f.calls() if t.path == f.id]
+        if not rec or not any(t.path == SG + "remove_node" for t in f.calls()):
+            continue
+        cfg = CFG(f)
+        for t in rec:
+            nxs = [x for x in f.calls() if (x.path or "").endswith("::next") and cfg.reaches(x.bb, t.bb) and cfg.reaches(t.bb, x.bb) and x.target is not None]
+            for nx in nxs:
+                sw = cfg.blocks[nx.target].term
+                if sw.k != "switch":
+                    continue
+                some = [tg for v, tg in sw.j["targets"] if v == 1]
+                if not some:
+                    continue
+                region = cfg.reach_from(some[0], cut={nx.bb})
+                body = {x for x in region if cfg.reaches(x, nx.bb)}
+                leaks = [x for x in region - body if not cfg.diverges(x) and cfg.blocks[x].term.k != "unreachable"]
+                # blocks reachable from the body that never come back to the loop head and do not panic: an early exit
+                leaks = [x for x in leaks if any(p in body for p in cfg.pred[x])]
+                ctx.ob("R06.5", "%s|no-early-exit" % f.id, not leaks,
+                       "the cascade loop is left only when all collected successors were visited" if not leaks else
+                       "the cascade loop can be left early (break/return inside the loop): the remaining dependants are never removed",
+                       site="%s in %s" % (cfg.blocks[leaks[0]].term.span if leaks else t.span, f.id))
 
 
 def check_generation(ctx, gfns):
@@ -364,6 +389,55 @@ def check_generation(ctx, gfns):
                 ctx.ob("R06.6", "free|%s" % f.id, bumped,
                        "the freed slot is re-created with generation+1" if bumped else "slot freed without bumping its generation",
                        site="%s in %s" % (t.span, f.id))
+
+
+def check_argument_scan(ctx, gfns):
+    """R06.8: in the already-passed scan of set_instantiation_argument every verdict taken inside the loop
+    (early Ok for the same source, ArgumentAlreadyPassed) is guarded by `edge payload == argument index`."""
+    db, prov = ctx.db, ctx.prov
+    n = 0
+    for f in gfns:
+        adds = [t for t in f.calls() if t.path == SG + "add_edge" and ("wac_graph::graph::Edge", "Argument") in prov.slice(f, t.args[3]).aggs]
+        if not adds:
+            continue
+        cfg = CFG(f)
+        ctx.touch(f)
+        scans = [c for c in f.calls() if (c.path or "").endswith("::edges_directed") and any(cfg.dominates(c.bb, a.bb) for a in adds)]
+        for sc in scans:
+            nxs = [x for x in f.calls() if (x.path or "").endswith("::next") and cfg.reaches(x.bb, x.bb) and any(y is sc for _, y in prov.slice(f, x.args[0]).calls)]
+            for nx in nxs:
+                if nx.target is None:
+                    continue
+                sw = cfg.blocks[nx.target].term
+                if sw.k != "switch":
+                    continue
+                some = [tg for v, tg in sw.j["targets"] if v == 1]
+                if not some:
+                    continue
+                region = cfg.reach_from(some[0], cut={nx.bb})
+                verdicts = [s_ for s_ in f.stmts() if s_.bb in region and s_.lhs.local == 0 and not s_.lhs.proj and s_.rv.k == "agg"
+                            and s_.rv.j.get("adt", "").endswith("result::Result") and not any(cfg.dominates(a.bb, s_.bb) for a in adds)]
+                # comparisons payload == index
+                guards = []
+                for b in f.blocks:
+                    if b.term.k != "switch" or b.idx not in region:
+                        continue
+                    from facts import Operand
+                    op = Operand(b.term.j["discr"])
+                    sl = prov.slice(f, op)
+                    if any(nm == "0" and o.endswith("graph::Edge") and v == "Argument" for nm, o, v in sl.fields) and ("Eq" in sl.binops or sl.has_call("PartialEq")) \
+                            and (sl.has_call("get_full") or sl.has_call("get_index_of")):
+                        tt, ft = true_false_targets(b.term)
+                        guards.append(tt)
+                for v_ in verdicts:
+                    n += 1
+                    ok = any(any(cfg.dominates(x, v_.bb) for x in tt) for tt in guards)
+                    ctx.ob("R06.8", "scan-verdict|%s|%s@%d" % (f.id, v_.rv.j.get("variant"), n), ok,
+                           "a verdict inside the already-passed scan is taken only for an edge with the same argument index" if ok else
+                           "the already-passed scan returns %s for an edge of a *different* argument (not guarded by `payload == argument index`): "
+                           "passing one node for two arguments reports success without adding the second edge" % v_.rv.j.get("variant"),
+                           site="%s in %s" % (v_.span, f.id))
+    ctx.ob("R06.8", "count", n >= 2, "verdicts inside the already-passed scan: %d" % n, nontrivial=False)
 
 
 def check_uniqueness(ctx):
